@@ -338,7 +338,13 @@ func ClientRun(osenv *rsyncos.Env, opts *rsyncopts.Options, conn io.ReadWriter, 
 			}
 		}
 
-		stats, err := st.Do(crd, cwr, FileSystemRoot, paths, nil)
+		// The sending side applies the filter rules to its file list.
+		exclusionList, err := sender.NewFilterRuleList(opts.FilterRules())
+		if err != nil {
+			return nil, err
+		}
+
+		stats, err := st.Do(crd, cwr, FileSystemRoot, paths, exclusionList)
 		if err != nil {
 			return nil, err
 		}
